@@ -26,8 +26,8 @@ CONSTANT KnownIds
 Rec == ndJsonDeserialize(IOEnv.TRACE)
 N == Len(Rec)
 
-VARIABLES l, cur, kq, tq, kN, tN, ended, failed, errmsg, inTab, afterTab, held, must, pend, onJust, prevOut, prevTimeout, viol, cs, lay, flushed
-vars == <<l, cur, kq, tq, kN, tN, ended, failed, errmsg, inTab, afterTab, held, must, pend, onJust, prevOut, prevTimeout, viol, cs, lay, flushed>>
+VARIABLES l, cur, kq, tq, kN, tN, ended, failed, errmsg, inTab, afterTab, tabCleared, held, must, pend, onJust, prevOut, prevTimeout, viol, cs, lay, flushed
+vars == <<l, cur, kq, tq, kN, tN, ended, failed, errmsg, inTab, afterTab, tabCleared, held, must, pend, onJust, prevOut, prevTimeout, viol, cs, lay, flushed>>
 
 EndEv == [t |-> "E", k |-> ""]
 NoPend == [on |-> FALSE, keys |-> <<>>, interval |-> 0, delay |-> 0, lo |-> 0, hi |-> 0, open |-> FALSE]
@@ -41,7 +41,7 @@ Bump(i) == TLCSet(i, TLCGet(i) + 1)
 BumpIf(c, i) == c => Bump(i)
 
 Init == /\ l = 1 /\ cur = "" /\ kq = <<>> /\ tq = <<>> /\ kN = FALSE /\ tN = FALSE /\ ended = FALSE /\ failed = FALSE /\ errmsg = ""
-        /\ inTab = FALSE /\ afterTab = FALSE /\ held = {} /\ must = NoMust /\ pend = NoPend /\ onJust = FALSE /\ prevOut = 0 /\ prevTimeout = FALSE
+        /\ inTab = FALSE /\ afterTab = FALSE /\ tabCleared = FALSE /\ held = {} /\ must = NoMust /\ pend = NoPend /\ onJust = FALSE /\ prevOut = 0 /\ prevTimeout = FALSE
         /\ viol = {} /\ cs = InitLoop /\ lay = <<>> /\ flushed = FALSE
         /\ \A i \in 1..NReg: TLCSet(i, 0)
 
@@ -85,7 +85,9 @@ Conf(r) == LET c2 == ConfStep(r) IN
 
 (* ---- C11: the admissible value of a timed poll's timeout, from the stamps ---- *)
 PollTiming(r) ==
-  IF ~pend.on THEN Tag(r.timeout # -1, "C11-timer-without-repeat")
+  \* a timed poll while no repeat is pending only wakes the loop up for nothing: nothing the property forbids
+  \* (the conformance layer reports it as DRIFT); what matters is that no chord is written then
+  IF ~pend.on THEN {}
   ELSE IF r.timeout = -1 THEN {"C11-repeat-without-timer"}
   ELSE LET lo == pend.lo - r.tin      \* the wake-up instant is in [pend.lo, pend.hi]; the loop read the clock in [prevOut, r.tin]
            hi == (IF pend.open THEN r.tin + pend.delay * 1000 ELSE pend.hi) - prevOut
@@ -96,7 +98,7 @@ PollTiming(r) ==
 Reset(r) ==
   /\ cur' = r.id /\ lay' = r.layout /\ cs' = InitLoop
   /\ kq' = <<>> /\ tq' = <<>> /\ kN' = FALSE /\ tN' = FALSE /\ ended' = FALSE /\ failed' = FALSE /\ errmsg' = ""
-  /\ inTab' = FALSE /\ afterTab' = FALSE /\ held' = {} /\ must' = NoMust /\ pend' = NoPend /\ onJust' = FALSE /\ prevOut' = 0 /\ prevTimeout' = FALSE
+  /\ inTab' = FALSE /\ afterTab' = FALSE /\ tabCleared' = FALSE /\ held' = {} /\ must' = NoMust /\ pend' = NoPend /\ onJust' = FALSE /\ prevOut' = 0 /\ prevTimeout' = FALSE
   /\ viol' = {} /\ Report(cur, viol) /\ Bump(1)
 
 ConsumeLine ==
@@ -110,7 +112,7 @@ ConsumeLine ==
                     \cup Tag(~failed /\ ~r.ok /\ ~r.panic, "C10-loop-returned-error")
                     \cup Tag(~failed /\ r.ok /\ ~ended, "C10-loop-returned-before-end-of-device")
        /\ Conf(r) /\ must' = NoMust /\ onJust' = FALSE
-       /\ UNCHANGED <<cur, lay, kq, tq, kN, tN, ended, failed, errmsg, inTab, afterTab, held, pend, prevOut, prevTimeout>>
+       /\ UNCHANGED <<cur, lay, kq, tq, kN, tN, ended, failed, errmsg, inTab, afterTab, tabCleared, held, pend, prevOut, prevTimeout>>
      ELSE
        LET kq1 == kq \o r.arrK   tq1 == tq \o TabQ(r.arrT)
            kN1 == kN \/ r.arrK # <<>>   tN1 == tN \/ r.arrT # <<>>
@@ -124,7 +126,7 @@ ConsumeLine ==
        /\ CASE r.c = "register" ->
                  /\ viol' = viol \cup AfterFailure
                  /\ kq' = kq1 /\ tq' = tq1 /\ kN' = kN1 /\ tN' = tN1
-                 /\ UNCHANGED <<ended, inTab, afterTab, held, must, pend, onJust, prevTimeout>>
+                 /\ UNCHANGED <<ended, inTab, afterTab, tabCleared, held, must, pend, onJust, prevTimeout>>
             [] r.c = "poll" ->
                  LET fire == r.res = "timeout" /\ pend.on
                      chord == WantedChord(pend.keys, held)
@@ -146,7 +148,7 @@ ConsumeLine ==
                             ELSE IF fire THEN [pendC EXCEPT !.lo = @ + pend.interval * 1000, !.hi = @ + pend.interval * 1000]
                             ELSE pendC
                  /\ prevTimeout' = (r.res = "timeout") /\ onJust' = FALSE
-                 /\ UNCHANGED <<ended, inTab, afterTab, held>>
+                 /\ UNCHANGED <<ended, inTab, afterTab, tabCleared, held>>
             [] r.c = "kbd" ->
                  LET one == r.res = "one" IN
                  /\ viol' = viol \cup Owed \cup AfterFailure
@@ -165,6 +167,7 @@ ConsumeLine ==
                             ELSE [on |-> TRUE, keys |-> r.ref.rep.keys, interval |-> r.ref.rep.interval, delay |-> r.ref.rep.delay,
                                   lo |-> r.tout + r.ref.rep.delay * 1000, hi |-> 0, open |-> TRUE]
                  /\ prevTimeout' = FALSE /\ onJust' = FALSE
+                 /\ tabCleared' = (tabCleared /\ ~(one /\ ~inTab /\ r.ref.rep.kind = "Repeating"))
                  /\ UNCHANGED <<inTab, afterTab, held>>
             [] r.c = "tab" ->
                  LET one == r.res = "one" IN
@@ -174,7 +177,7 @@ ConsumeLine ==
                        \cup Tag(one /\ (tq1 = <<>> \/ Head(tq1) # r.on), "ENV-wrong-event")
                  /\ BumpIf(one /\ r.on /\ held # {}, 10)
                  /\ tq' = (IF one THEN Tail(tq1) ELSE tq1) /\ kq' = kq1 /\ kN' = kN1 /\ tN' = tN1
-                 /\ inTab' = (IF one THEN r.on ELSE inTab) /\ afterTab' = (afterTab \/ one)
+                 /\ inTab' = (IF one THEN r.on ELSE inTab) /\ afterTab' = (afterTab \/ one) /\ tabCleared' = (tabCleared \/ one)
                  /\ pend' = IF one THEN NoPend ELSE pendC
                  /\ must' = IF one THEN [on |-> r.ref.ev # <<>>, kind |-> "releaseall", evs |-> r.ref.ev, on2 |-> FALSE, evs2 |-> <<>>] ELSE NoMust
                  /\ onJust' = (one /\ r.on) /\ prevTimeout' = FALSE
@@ -194,15 +197,17 @@ ConsumeLine ==
                              ELSE {"C10-wrong-payload-" \o must.kind})
                        \cup Tag(must.kind = "step" /\ afterTab /\ r.evs # must.evs2, "C12-not-fresh-after-tablet-mode")
                        \cup Tag(isChord /\ HeldAfter(held, r.evs) # held, "C11-chord-not-transient")
+                       \* C12: a repeat chord although a tablet-mode switch was read since the last repeat was armed ("resumes as from a fresh start")
+                       \cup Tag(tabCleared /\ prevTimeout /\ ~must.on /\ ~(must.kind = "emptychord" /\ r.evs = <<>>), "C12-repeat-survives-tablet-switch")
                  /\ BumpIf(isChord, 3) /\ BumpIf(must.on /\ must.kind = "step", 4) /\ BumpIf(must.on /\ must.kind = "releaseall", 5)
                  /\ held' = (IF isErr THEN held ELSE HeldAfter(held, r.evs))
                  /\ must' = NoMust /\ pend' = (IF pend.on /\ pend.open THEN [pend EXCEPT !.lo = r.tout + pend.delay * 1000] ELSE pend)
                  /\ kq' = kq1 /\ tq' = tq1 /\ kN' = kN1 /\ tN' = tN1
                  /\ prevTimeout' = FALSE
-                 /\ UNCHANGED <<ended, inTab, afterTab, onJust>>
+                 /\ UNCHANGED <<ended, inTab, afterTab, tabCleared, onJust>>
 
 Flush == /\ l = N + 1 /\ ~flushed /\ flushed' = TRUE /\ Report(cur, viol)
-         /\ UNCHANGED <<l, cur, kq, tq, kN, tN, ended, failed, errmsg, inTab, afterTab, held, must, pend, onJust, prevOut, prevTimeout, viol, cs, lay>>
+         /\ UNCHANGED <<l, cur, kq, tq, kN, tN, ended, failed, errmsg, inTab, afterTab, tabCleared, held, must, pend, onJust, prevOut, prevTimeout, viol, cs, lay>>
 
 Next == ConsumeLine \/ Flush
 Spec == Init /\ [][Next]_vars
